@@ -10,6 +10,9 @@ def unparse(node):
     return ast.unparse(node)
 
 
+FETCHED = set()  # (file, qualified function name) of every Module.fn() call of this process
+
+
 class Module:
     def __init__(self, root, rel):
         self.rel = rel
@@ -54,6 +57,7 @@ class Module:
     def fn(self, name):
         if name not in self.functions:
             raise AnalysisError("anchor function vanished: %s::%s" % (self.rel, name))
+        FETCHED.add((self.rel, name))  # (tools/unread.py: which anchored functions does no rule of a property fetch by name)
         return self.functions[name]
 
     def cls(self, name):
